@@ -53,11 +53,12 @@ IsPrefixOf(s, t) == Len(s) <= Len(t) /\ SubSeq(t, 1, Len(s)) = s
 (* coercions are a prefix of the input's); and when it is a template coercion itself that       *)
 (* throws, the output has by then already evaluated the later substitutions (the input's other  *)
 (* effects are a prefix of the output's).                                                       *)
-Why(inLog, outLog, inOut, outOut) ==
+Why(inLog, outLog, inOut, outOut, primFault) ==
   LET si == Strip(inLog) so == Strip(outLog)
       d == FirstDiff(si, so, 1)
       ti == PrimTable(inLog) to == PrimTable(outLog)
-      coercionThrew == inOut.k = "throw" /\ Len(inLog) > 0 /\ IsPrimS(inLog[Len(inLog)])
+      \* primFault: the scenario makes a coercion throw
+      coercionThrew == primFault /\ inOut.k = "throw" /\ Len(inLog) > 0 /\ IsPrimS(inLog[Len(inLog)])
       \* every coercion the output performs is one the input performs, and it is not earlier
       notEarlier == \A p \in to : \E q \in ti : q[1] = p[1] /\ q[2] = p[2] /\ p[3] >= q[3]
   IN IF inOut # outOut THEN "outcome differs: input " \o ToString(inOut) \o " output " \o ToString(outOut)
@@ -72,6 +73,10 @@ Why(inLog, outLog, inOut, outOut) ==
      ELSE IF inOut.k # "throw" /\ PrimIds(ti) # PrimIds(to) THEN "template coercions differ"
      ELSE IF ~notEarlier THEN "a template substitution is coerced earlier than in the input, or coerced without counterpart"
      ELSE ""
+
+(* same events, any order *)
+CountIn(s, x) == Cardinality({i \in 1..Len(s) : s[i] = x})
+BagEq(s, t) == Len(s) = Len(t) /\ \A i \in 1..Len(s) : CountIn(s, s[i]) = CountIn(t, s[i])
 
 (* is out obtained from in by inserting extra events only (same outcome)?  used to recognise   *)
 (* the repeated evaluation of a compound-assignment target (named deviation D6)                 *)
